@@ -209,6 +209,7 @@ def esteps(ctx):
             Q + "_compute_id_plus_u_prod_ih": FA.spec_id_plus_u_prod_ih, Q + "_compute_id_plus_vprod_i": FA.spec_id_plus_vprod_i,
             Q + "_compute_id_plus_d_prod_i": FA.spec_id_plus_d_prod_i}
     Kc, kk = T.sym("Kc", "int"), T.sym("kk", "int")
+    defs = []
     assume = [T.cmp_cond("<=", ZERO, kk), T.cmp_cond("<", kk, Kc)]
     zeros = lambda *shape: Arr(tuple(shape), lambda *idx: ZERO)
 
@@ -241,7 +242,8 @@ def esteps(ctx):
             A1 = Arr((FA.Cc, FA.RV, FA.RV), lambda c, r, s: P(n.fn(c)) * (P(Phi.fn(r, s)) + P(yh.fn(r)) * P(yh.fn(s))))
             A2 = Arr((FA.Cc * FA.Dd, FA.RV), lambda i, r: P(fn.fn(i)) * P(yh.fn(r)))
             return (A1, A2)
-        cl = K.check_function(I, J + "e_step_v", build_v, spec_v, F, "C09.estep.V", state_names={0: "self"}, structural=False, assume=assume)
+        cl = K.check_function(I, J + "e_step_v", build_v, spec_v, F, "C09.estep.V", state_names={0: "self"}, structural=True, assume=assume, force_sides=True)
+        defs += [c for c in cl if ".def" in c.name]
         out += collapse([c for c in cl if ".def" not in c.name], "C09.estep.V",
                         "V phase: A1_c = N_c (Phi_y + y y'), A2 = Fnorm_y y' with y the posterior mean of the class's speaker factor at x = 0, z = 0")
         # ---------------- U phase
@@ -271,7 +273,8 @@ def esteps(ctx):
                     return P(fn.fn(i)) * P(xh.fn(r, h))
                 return Sum(FA.Hh, per, "h")
             return (Arr((FA.Cc, FA.RU, FA.RU), a1), Arr((FA.Cc * FA.Dd, FA.RU), a2))
-        cl = K.check_function(I, J + "e_step_u", build_u, spec_u, F, "C09.estep.U", state_names={0: "self"}, structural=False, assume=assume)
+        cl = K.check_function(I, J + "e_step_u", build_u, spec_u, F, "C09.estep.U", state_names={0: "self"}, structural=True, assume=assume, force_sides=True)
+        defs += [c for c in cl if ".def" in c.name]
         out += collapse([c for c in cl if ".def" not in c.name], "C09.estep.U",
                         "U phase: A1_c = Σ_h N_hc (Phi_h + x_h x_h'), A2 = Σ_h Fnorm_h x_h' with x_h the posterior mean of each session's channel "
                         "factor given the handed-over speaker factors (z = 0)")
@@ -296,7 +299,8 @@ def esteps(ctx):
             A1 = Arr((FA.Cc * FA.Dd,), lambda i: (var(i) + P(zh.fn(i)) ** 2) * P(n.fn(FA.cd(i)[0])))
             A2 = Arr((FA.Cc * FA.Dd,), lambda i: P(fn.fn(i)) * P(zh.fn(i)))
             return (A1, A2)
-        cl = K.check_function(I, J + "e_step_d", build_d, spec_d, F, "C09.estep.D", state_names={0: "self"}, structural=False, assume=assume)
+        cl = K.check_function(I, J + "e_step_d", build_d, spec_d, F, "C09.estep.D", state_names={0: "self"}, structural=True, assume=assume, force_sides=True)
+        defs += [c for c in cl if ".def" in c.name]
         out += collapse([c for c in cl if ".def" not in c.name], "C09.estep.D",
                         "D phase: A1 = N (var_z + z^2), A2 = Fnorm_z z with z the posterior mean of the class's residual offset given the handed-over x_h, y")
         # ---------------- ISV training E-step (the same per-class form; used by the chunking / bag / determinism properties)
@@ -327,10 +331,12 @@ def esteps(ctx):
                     return P(fn.fn(i)) * P(xh.fn(r, h))
                 return Sum(FA.Hh, per, "h")
             return (Arr((FA.Cc, FA.RU, FA.RU), a1), Arr((FA.Cc * FA.Dd, FA.RU), a2))
-        cl = K.check_function(I, IS + "e_step", build_isv, spec_isv, F, "C09.isv.estep", state_names={0: "self"}, structural=False, assume=assume)
+        cl = K.check_function(I, IS + "e_step", build_isv, spec_isv, F, "C09.isv.estep", state_names={0: "self"}, structural=True, assume=assume, force_sides=True)
+        defs += [c for c in cl if ".def" in c.name]
         out += collapse([c for c in cl if ".def" not in c.name], "C09.isv.estep",
                         "ISV training E-step (one class per call): x_h = posterior mean at z = 0, z = posterior mean given those x_h, "
                         "A1_c = Σ_h N_hc (Phi_h + x_h x_h'), A2 = Σ_h (F_h - N_h (m + D z)) x_h'")
+        out += collapse(defs, "C09.estep.def", "every division in the E-steps is defined for all U, V, D (entries of D may be zero), counts >= 0, variances > 0")
     finally:
         T.PRODUCTS[:] = []
     return out
